@@ -104,7 +104,7 @@ impl Check for C20 {
         gt::choices(120).prop_map(|choices| Case { choices }).boxed()
     }
     fn rule(&self) -> String {
-        "a generated set of marker files (2-5 programs mK.lp each defining its own predicate, 0-2 .spec, 1-2 .ug, 0-2 .po, files with other extensions) placed at top level or in directories (created in non-sorted order, names with mixed case, digits, leading dot/underscore, one nesting level) and a generated permutation of the arguments; strong and external equivalence; oracle: a reference model (arguments in order, directory contents depth-first in byte-wise name order, first/second .lp, first .spec/.ug/.po) predicts which markers must appear among the axioms and among the conjectures of the forward problems written by --save-problems (and that the run fails when a required file is missing); non-trivial = at least 3 .lp files or a directory argument; distinct by scenario".into()
+        "a generated set of marker files (2-5 programs mK.lp each defining its own predicate, 0-2 .spec, 1-2 .ug, 0-2 .po, files with other extensions) placed at top level or in directories (created in non-sorted order, names with mixed case, digits, leading dot/underscore, one nesting level, one file in five a symbolic link to a file stored elsewhere) and a generated permutation of the arguments, one case in four with one argument given twice in a row; strong and external equivalence; oracle: a reference model (arguments in order, directory contents depth-first in byte-wise name order, first/second .lp, first .spec/.ug/.po) predicts which markers must appear among the axioms and among the conjectures of the forward problems written by --save-problems (and that the run fails when a required file is missing); non-trivial = at least 3 .lp files or a directory argument; distinct by scenario".into()
     }
     fn run(&self, case: &Case) -> Outcome {
         let Some(bin) = cli::anthem_bin() else {
@@ -148,11 +148,21 @@ impl Check for C20 {
         for i in (1..order.len()).rev() {
             order.swap(i, c.next(i + 1));
         }
+        let store = root.join("out__store");
         for i in &order {
             let f = &files[*i];
             let p = root.join(&f.rel);
             std::fs::create_dir_all(p.parent().unwrap()).unwrap();
-            std::fs::write(&p, content(f.ext, f.marker)).unwrap();
+            // one file in five is a symbolic link to a file kept elsewhere (under a name without
+            // extension): its role follows from the name it is given under, like any other file
+            if c.aux(83 + *i as u64, 5) == 0 {
+                std::fs::create_dir_all(&store).unwrap();
+                let target = store.join(format!("original{}", f.marker));
+                std::fs::write(&target, content(f.ext, f.marker)).unwrap();
+                std::os::unix::fs::symlink(&target, &p).unwrap();
+            } else {
+                std::fs::write(&p, content(f.ext, f.marker)).unwrap();
+            }
         }
         // arguments: top-level entries in a generated order (d1/sub is reached through d1)
         let mut tops: Vec<String> = files
@@ -164,7 +174,13 @@ impl Check for C20 {
         for i in (1..tops.len()).rev() {
             tops.swap(i, c.next(i + 1));
         }
-        // sometimes name a nested file directly in addition to nothing else of its directory
+        // one case in four names one argument twice in a row (the same spelling): every occurrence
+        // counts, so a program given twice is both the first and the second program
+        if c.aux(81, 4) == 0 && !tops.is_empty() {
+            let i = c.aux(82, tops.len());
+            let again = tops[i].clone();
+            tops.insert(i + 1, again);
+        }
         let mut listed: Vec<String> = vec![];
         for t in &tops {
             walk(&root, t, &mut listed);
